@@ -3,13 +3,13 @@ PID = 'C07'
 SPEC = dict(
     driver='c07_sign',
     extra=['ref/ref.c', 'ref/ref_sig.c', 'ref/ref_pdu.c', 'simnet.c'],
-    rule='Server-behaviour enumeration at the transport seam. A case = (interface {KSI_Signature_signAggregated, KSI_createSignature, async service} x '
+    rule='Server-behaviour enumeration at the transport seam. A case = (interface {KSI_Signature_signAggregated, KSI_createSignature, KSI_Signature_signAggregatedWithPolicy with a caller context, the older names KSI_Signature_createAggregated / KSI_Signature_create, async service} x '
          'transport {TCP via simulated sockets, HTTP via fake libcurl} x PDU version x document hash algorithm x level x honest tree shape (6) x tail '
          '(no calendar / calendar / calendar+auth record) x server behaviour (17 classes, sub-indexed: 11 status codes, 8 ways of breaking internal '
          'consistency)). The reference aggregator answers the request bytes the client really emitted; the emitted request is re-parsed by the reference '
          '(hash, level, login id, MAC). Distinct = case name; all cases reach the oracle (success iff honest; result signature re-parsed and evaluated by the reference).',
     bounds=dict(
-        quick='KSI_Signature_signAggregationChain with a one-link local chain at input levels {0,1,3,17,200} x link correction {0,2} x 2 transports; server behaviours now include chains listed top-first and reply ids that differ from the request id only in the upper 32 bits; every behaviour (with all sub-variants) x 3 interfaces x 2 transports x levels {0,2} with one shape/algorithm per behaviour; PDU v1 for honest/foreign/stale/other-version; SHA-1 refusal on 2 interfaces x 2 transports',
+        quick='KSI_Signature_signAggregationChain with a one-link local chain at input levels {0,1,3,17,200} x link correction {0,2} x 2 transports; server behaviours now include chains listed top-first and reply ids that differ from the request id only in the upper 32 bits; every behaviour (with all sub-variants) x 3 interfaces x 2 transports x levels {0,2} with one shape/algorithm per behaviour; PDU v1 for honest/foreign/stale/other-version; SHA-1 refusal on 4 interfaces x 2 transports',
         thorough='full product shape(6) x tail(3) x behaviour for SHA-256 at levels {0,2}, v2; all 4 trusted algorithms and levels {0,1,2,254,255} with one shape per behaviour; v1 with one shape per behaviour'),
     technique='exhaustive enumeration of a server-behaviour menu at the transport seam against the real client code; reference aggregator + reference signature evaluator as oracle',
     level_text='For every element of a finite menu of server behaviours (honest replies of every tree shape in the bound and every adversarial deviation named in the property) the real client code (blocking TCP, blocking HTTP, asynchronous service) is driven to completion against a simulated transport; success is required exactly for honest replies and the returned signature is re-parsed and re-evaluated by the independent reference. All behaviours in the menu are enumerated; nothing is sampled.',
